@@ -2,6 +2,8 @@
 From NL.Model Require Import Builtins Pipeline.
 From NL.Spec Require Import GCInv Sem Fragment Fragment2 Fragment2h.
 From NL.Proofs Require DecimalProofs BuiltinsProofs CompileCorrectH3 CompileCorrectH5.
+From NL.Spec Require Import Sem Fragment Fragment2 Fragment2h Fragment3 Fragment4.
+From NL.Proofs Require CompileCorrectJ9 CompileCorrectJ10.
 Import DecimalProofs BuiltinsProofs.
 Open Scope Z_scope.
 
@@ -81,6 +83,14 @@ Proof. exact CompileCorrectH5.print_output_order. Qed.
 Theorem call_builtin_rel : forall (orc : oracle) (K : Z) (R : loc_rel) (hs hm : heap), CompileCorrectH3.HR K R hs hm -> forall (b : builtin) (args args' : list val), Forall2 (val_rel R) args args' -> CompileCorrectH3.bres_rel K R hm (call_builtin orc b hs args) (call_builtin orc b hm args').
 Proof. exact CompileCorrectH3.call_builtin_rel. Qed.
 
+(* SOURCE level, WHOLE language outside the exclusions of DESIGN 4.3 (functions, heap values, builtins together, collector running): the compiled program computes exactly what the definitional semantics assigns to the tree - which decides this property for every such program of the model *)
+Theorem compile_correct_F4 : forall (orc : oracle) (p : block), in_F4 p = true -> ends_expr p = true -> lits_exact (lits_b p) -> forall bc : bytecode, compile p = Ok bc -> forall fuel : nat, (size3_b p <= fuel)%nat -> sem_program orc fuel p <> SemFuel -> sem_small orc fuel p (length (b_constants bc)) -> (exists budget : nat, obs_eq4 (run_program orc bc budget) (sem_program orc fuel p)) \/ hits_excluded4 (CompileCorrectJ5.fun_table p) orc bc.
+Proof. exact CompileCorrectJ9.compile_correct_F4. Qed.
+
+(* whole language: the printed text is exactly, in order, what the semantics prints, also from inside functions and before an error *)
+Theorem print_output_order_F4 : forall (orc : oracle) (p : block), in_F4 p = true -> ends_expr p = true -> lits_exact (lits_b p) -> forall bc : bytecode, compile p = Ok bc -> forall fuel : nat, (size3_b p <= fuel)%nat -> sem_program orc fuel p <> SemFuel -> sem_small orc fuel p (length (b_constants bc)) -> (exists budget : nat, CompileCorrectH5.sem_out (sem_program orc fuel p) = Some (o_out (run_program orc bc budget))) \/ hits_excluded4 (CompileCorrectJ5.fun_table p) orc bc.
+Proof. exact CompileCorrectJ10.print_output_order_F4. Qed.
+
 Example print_norescan_nonvacuous : True. Proof. exact I. Qed.
 Print Assumptions builtins_total.
 Print Assumptions arity_error.
@@ -101,3 +111,5 @@ Print Assumptions type_spec.
 Print Assumptions display_arr.
 Print Assumptions print_output_order.
 Print Assumptions call_builtin_rel.
+Print Assumptions compile_correct_F4.
+Print Assumptions print_output_order_F4.
